@@ -439,7 +439,9 @@ func checkView(rep *hx.Report, kind string, v filesystem.ICloseableFS, nodes []t
 			continue
 		}
 		err := f()
-		if err == nil && !(name == "CleanDir" && len(nodes) == 0) && !(name == "MkDir") {
+		// CleanDir has nothing to refuse when the view shows nothing it could delete (no file at all: empty directories
+		// are not served, see the recorded finding)
+		if err == nil && !(name == "CleanDir" && existing == "") && !(name == "MkDir") {
 			rep.Fail(hx.Failure{Kind: "impl-violates-property", Key: kind + "fs-mutation-accepted:" + name, Case: canon, Expected: "an error", Observed: "nil"})
 		}
 	}
